@@ -543,8 +543,12 @@ def sym_write_file_to_output(vc):
             cp = calls(evs, target='shutil.copy')
             if hashed:
                 ex = L.FS_EXISTS(dest)
+                is_desc = path.t == z3.StringVal('datapackage.json')
                 check(it, 'copy-skipped-only-if-destination-exists' + tag, z3.Implies(z3.Not(ex), _b(len(cp) == 1)))
-                check(it, 'existing-hashed-file-not-rewritten' + tag, z3.Implies(ex, _b(len(cp) == 0)))
+                # data files live under the hash of their content: an existing one is the same file.  The descriptor is not
+                # content-addressed -- it describes THIS dump (C09: stats agree with the written descriptor) and is always written
+                check(it, 'existing-hashed-file-not-rewritten' + tag, z3.Implies(z3.And(ex, z3.Not(is_desc)), _b(len(cp) == 0)))
+                check(it, 'descriptor-always-written' + tag, z3.Implies(is_desc, _b(len(cp) == 1)))
             else:
                 check(it, 'trace-is-ensure-directory-then-copy' + tag, [n for n in names if n != 'os.makedirs'] == ['shutil.copy']
                       and names[-1:] == ['shutil.copy'])
